@@ -1382,7 +1382,10 @@ def reuse_items(ctx):
     if c03:
         out += [("c03", it) for it in c03.items_for(sub)]
     if c04:
-        out += [("c04", it) for it in capture_items(c04, sub)]
+        # (the bit-field items of c04 have their own per-program function;
+        # bit fields are loaded through the c03 and c07 families here)
+        out += [("c04", it) for it in capture_items(c04, sub)
+                if not (isinstance(it[0], tuple) and it[0][:1] == ("bits",))]
     if c07:
         out += [("c07", it) for it in capture_items(c07, sub)]
     if c06:
